@@ -475,7 +475,9 @@ def handle (j : Json) : Json :=
     | .error e => Json.mkObj [("status", e.name), ("rank", rk.errName)]
   | "guards" =>
     Json.mkObj [("status", "ok"), ("length", (Gen.transformLengthGuard (getInt j "lenX") (getInt j "nData")).errName),
-      ("alpha", (Gen.whitenerAlphaGuard (getInt j "alpha")).errName)]
+      ("alpha", (Gen.whitenerAlphaGuard (getInt j "alpha")).errName),
+      ("rot_single", (Gen.rotatorModesGuardSingle (getInt j "nModes") (getInt j "nModel")).errName),
+      ("rot_cross", (Gen.rotatorModesGuardCross (getInt j "nModes") (getInt j "nModel")).errName)]
   | "history" =>
     let ops := ((j.getObjValAs? (Array Json) "ops").toOption.getD #[]).toList.map opOfJson
     let r := H2.run H2.current H2.init ops
